@@ -8,10 +8,22 @@
                          position space (`limit_ok`).
    `xreachable m rv x` : the same for an ExclusivePublication constructed (as repaired) on such a log.
    m : Debug / Release arithmetic, rv : any reserved-value supplier. *)
-Require Import V.Base.MachineInt V.Generated.GenConsts V.Model.Descriptor V.Model.LogBase V.Model.Appender
-               V.Model.ExclAppender V.Model.Publication V.Model.ExclPublication
-               V.Proofs.AppenderProofs V.Proofs.PublicationProofs V.Proofs.BulkProofs V.Proofs.C04Proofs
-               V.Proofs.ExclPublicationProofs V.Proofs.C04Statements V.Oracle.C04Oracle V.Proofs.C04OracleProofs.
+Require Import V.Base.MachineInt.
+Require Import V.Generated.GenConsts.
+Require Import V.Model.Descriptor.
+Require Import V.Model.LogBase.
+Require Import V.Model.Appender.
+Require Import V.Model.ExclAppender.
+Require Import V.Model.Publication.
+Require Import V.Model.ExclPublication.
+Require Import V.Proofs.AppenderProofs.
+Require Import V.Proofs.PublicationProofs.
+Require Import V.Proofs.BulkProofs.
+Require Import V.Proofs.C04Proofs.
+Require Import V.Proofs.ExclPublicationProofs.
+Require Import V.Proofs.C04Statements.
+Require Import V.Oracle.C04Oracle.
+Require Import V.Proofs.C04OracleProofs.
 Open Scope Z_scope.
 
 (* every reachable state satisfies the invariant the other statements are proved from *)
